@@ -49,6 +49,15 @@ def gen(rng, tier):
             pol = rng.pick(POLICIES)
             sigs |= conflict_sig(cur, b)
             src, rep = source_variant(rng, b)
+            if rng.chance(0.12) and isinstance(b, dict) and "m" in b and b["m"]:
+                # a *Config source that went through a type change at one key: that node carries keys and list entries
+                key = rng.pick([k for k, _ in b["m"]])
+                first = M([(k, (rand_dict(rng, 2) if k == key else v)) for k, v in b["m"]])
+                second = M([(key, A([rand_leaf(rng) for _ in range(1 + rng.below(3))]))])
+                src, rep = {"cm": {"a": first, "optsA": [], "steps": [{"b": second, "opts": []}]}}, "merged-config"
+                # make sure A has a container at that key so the merge recurses
+                if isinstance(cur, dict) and "m" in cur and rng.chance(0.8):
+                    pass
             reps.append(rep)
             steps.append({"b": src, "opts": [opt(pol)] if pol else [], "_pol": pol})
             cur = b
